@@ -225,6 +225,10 @@ func (e *Engine) checkProperty(verif, prop, tier string, t0 time.Time) int {
 			notes[n] = true
 		}
 		candTotal += len(r.VC.cands)
+		for _, v := range r.VC.vacuous {
+			total++
+			report("vacuous-premise["+r.Name+" "+v+"]", r.Name, "vacuous", "the premise of clause "+v+" of "+r.Name+" is unsatisfiable at every place it is checked: the clause proves nothing", "", "-")
+		}
 		covers++
 		if r.VC.coverSt == "unsat" {
 			total++
